@@ -508,3 +508,30 @@ def c09_warp_order(ctx, dim, units, kind):
     a, b = build("parametrise"), build("wrap")
     ctx.ensure("parametrise-then-wrap == wrap-then-parametrise", a.shape == b.shape and bool(np.allclose(a, b, atol=1e-12)))
     ctx.ensure("the map is not the identity here (the correction does move the data)", not np.allclose(a, arr))
+
+
+@ob("C09.reparametrise", cases=[dict(dim=2), dict(dim=3)], mods=MODS, funcs=FUNCS, stubs=STUBS, samples=(2, 5), budget={"paths": 16, "timeout_ms": 4000},
+    cite="For every parameter choice ... scaling and translation act as documented (the map of an object is the map of the parameters it was given LAST)",
+    note="relational: an object whose parameters were set before (other translation, scaling, rotation) and are set again equals a fresh object with the same final parameters - "
+         "matrices and action on points (after seed C09_i: 3-D rotations composed onto the rotation already stored)")
+def c09_reparametrise(ctx, dim):
+    nrot = 1 if dim == 2 else 3
+    used = darsia.AffineTransformation(dim)
+    t0 = ctx.reals("u", dim, sample=(-5.0, 5.0))
+    s0 = ctx.real("s0", pos=True, sample=(0.1, 10.0))
+    k = 0 if dim == 2 else 1
+    th0 = [ctx.real("a", sample=(-3.0, 3.0)) if i == k else 0.0 for i in range(nrot)]
+    used.set_parameters(np.array(t0), s0, np.array(th0))
+    t = ctx.reals("t", dim, sample=(-5.0, 5.0))
+    s = ctx.real("s", pos=True, sample=(0.1, 10.0))
+    k2 = 0 if dim == 2 else 2
+    th = [ctx.real("b", sample=(-3.0, 3.0)) if i == k2 else 0.0 for i in range(nrot)]
+    used.set_parameters(np.array(t), s, np.array(th))
+    fresh = darsia.AffineTransformation(dim)
+    fresh.set_parameters(np.array(t), s, np.array(th))
+    ctx.ensure("rotation matrix of the re-parametrised object == fresh object's", eq(used.rotation, fresh.rotation))
+    ctx.ensure("inverse rotation of the re-parametrised object == fresh object's", eq(used.rotation_inv, fresh.rotation_inv))
+    X = rows(ctx, "x", 2, dim)
+    ctx.ensure("action on points: re-parametrised == fresh", and_(eq(used.call_array(X), fresh.call_array(X)), eq(used.inverse_array(X), fresh.inverse_array(X))))
+    used.set_parameters(np.array(t), s, np.zeros(nrot))
+    ctx.ensure("setting a zero rotation afterwards gives the pure scaling + translation", eq(used.call_array(X), s * X + np.array(t)[None, :]))
